@@ -44,6 +44,7 @@ type vWorld struct {
 	closing []string            // frames sent to sessions as they were told to stop (eviction)
 	created map[types.Uid]bool  // accounts which were created (a `state=missing` name never was)
 	deleted map[types.Uid]bool  // accounts which were deleted since
+	stalled map[string]bool     // sessions whose connection has stalled: the outgoing queue is full, nothing is read from it
 }
 
 // the registry of sessions (SessionStore.sessCache): every session of the stream is a connection
@@ -413,6 +414,9 @@ func (w *vWorld) drainSessions() []string {
 	var out []string
 	for _, sn := range w.order {
 		s := w.sess[sn]
+		if w.stalled[sn] {
+			continue // nobody reads: the queue stays full
+		}
 		for len(s.send) > 0 {
 			item := <-s.send
 			switch x := item.(type) {
@@ -1300,6 +1304,20 @@ func (w *vWorld) op(ws []string) (string, bool) {
 		}
 		w.ad.Calls = nil // set-up is not part of any request
 		return "ok", true
+	case "stall":
+		// stall S4 : the connection of S4 stops reading - its outgoing queue fills up, every further message to it is refused
+		s := w.sess[ws[1]]
+		if s == nil {
+			return "", false
+		}
+		if w.stalled == nil {
+			w.stalled = map[string]bool{}
+		}
+		for len(s.send) < cap(s.send) {
+			s.send <- &ServerComMessage{}
+		}
+		w.stalled[ws[1]] = true
+		return "ok", true
 	case "sess":
 		// sess S1 U1 auth|anon|root [bg]
 		s := &Session{sid: ws[1], send: make(chan any, 4096), stop: make(chan any, 8), detach: make(chan string, 256),
@@ -1602,6 +1620,13 @@ func (w *vWorld) op(ws []string) (string, bool) {
 	case "drop":
 		// the connection is gone: what Session.cleanUp does to the topics (the session object stays, it can subscribe again
 		// like a new connection of the same user would)
+		if w.stalled[ws[1]] {
+			// (whatever was queued for a stalled connection is lost with it)
+			for len(s.send) > 0 {
+				<-s.send
+			}
+			delete(w.stalled, ws[1])
+		}
 		if w.inflightTaken(s) {
 			// the connection closes while a {sub} or {leave} of the session is still in flight: Session.cleanUp runs in its own
 			// goroutine, as it does in the server, and waits for the request; the hub and the topics go on meanwhile
